@@ -958,9 +958,9 @@ Proof.
   - unfold AInv in *. cbn [mt cl set_cpc set_cl cl_pc c_pc c_in]. rewrite E. exact A.
 Qed.
 
-Lemma tinv_initseq cfg s : Mid cfg s -> done (mt s) = next (mt s) -> ended (mt s) = false -> alldone (mt s) = false -> TInv cfg (set_cpc CInitSeq s).
+Lemma tinv_initseq cfg s : Mid cfg s -> done (mt s) = next (mt s) -> done (mt s) = 0 -> ended (mt s) = false -> alldone (mt s) = false -> TInv cfg (set_cpc CInitSeq s).
 Proof.
-  intros M Hd He Ha.
+  intros M Hd Hd0 He Ha.
   assert (M' : Mid cfg (set_cpc CInitSeq s)) by mid_same M.
   split.
   - apply kb_kinv; [apply M'|]. destruct M' as [K N1 N2 N3 T ME1]. unfold PcInv. cbn [cl set_cpc set_cl cl_pc c_pc awake mt relphase].
@@ -1081,7 +1081,7 @@ Proof.
   - (* CInitBuf : the ring is reset *)
     assert (M : Mid cfg s) by (apply mid_of_tinv; auto; rewrite Epc; cbn; auto; discriminate).
     pose proof (A4 eq_refl) as Hal. destruct (PF Hal) as (Hdn & Hst).
-    match type of H with (if _ then Some (set_cpc _ ?x) else _) = _ => set (s1 := x) in * end.
+    match type of H with Some (set_cpc _ ?x) = _ => set (s1 := x) in * end.
     assert (M1 : Mid cfg s1).
     { constructor.
       - eapply kb_reset; [apply kinv_kb; exact K|exact Hdn|..]; reflexivity.
@@ -1090,13 +1090,11 @@ Proof.
       - cbn. discriminate.
       - exact AT.
       - cbn. discriminate. }
-    destruct (ldm (mt s)); inv_some H.
-    + apply tinv_initseq; auto.
-    + apply tinv_finish_ok; auto. intros X. discriminate.
+    inv_some H. apply tinv_initseq; auto.
   - (* CInitSeq *)
     assert (M : Mid cfg s) by (apply mid_of_tinv; auto; rewrite Epc; cbn; auto; discriminate).
     assert (F : Flow s) by (apply flow_of_ainv; auto; rewrite Epc; reflexivity).
-    inv_some H. apply tinv_finish_ok; [mid_same M|apply flow_flow0; exact F].
+    destruct (ldm (mt s)); inv_some H; (apply tinv_finish_ok; [mid_same M|apply flow_flow0; exact F]).
 Qed.
 
 (* ------------------------------------------------------------------ *)
